@@ -96,7 +96,7 @@ func (c *MonitorConfig) names() []string {
 	res := make([]string, 0)
 
 	if c.NameSelector != nil {
-		res = c.NameSelector.MatchNames
+		res = uniqueNames(c.NameSelector.MatchNames)
 	}
 
 	return res
@@ -127,7 +127,22 @@ func (c *MonitorConfig) namespaces() []string {
 		return []string{""}
 	}
 
-	return c.NamespaceSelector.NameSelector.MatchNames
+	return uniqueNames(c.NamespaceSelector.NameSelector.MatchNames)
+}
+
+// uniqueNames returns names without duplicates, the order is preserved. An informer is
+// created for each name, a repeated name leads to repeated objects in snapshots.
+func uniqueNames(names []string) []string {
+	res := make([]string, 0, len(names))
+	seen := make(map[string]struct{}, len(names))
+	for _, name := range names {
+		if _, ok := seen[name]; ok {
+			continue
+		}
+		seen[name] = struct{}{}
+		res = append(res, name)
+	}
+	return res
 }
 
 func (c *MonitorConfig) WithMode(mode kemtypes.KubeEventMode) {
